@@ -94,7 +94,7 @@ class Env:
         shutil.rmtree(self.w, ignore_errors=True)
 
 
-def one_run(sx, h_one, w, cfgtext, opts, uid=0, prep=None, calltimeout=2500, totaltimeout=6000, std_state=None, msglen=None, ncalls=1, stdin_pty=False):
+def one_run(sx, h_one, w, cfgtext, opts, uid=0, prep=None, calltimeout=2500, totaltimeout=6000, std_state=None, msglen=None, ncalls=1, stdin_pty=False, fsize=None):
     env = Env(w)
     try:
         if prep:
@@ -106,7 +106,7 @@ def one_run(sx, h_one, w, cfgtext, opts, uid=0, prep=None, calltimeout=2500, tot
             open(res, 'w').close()
             os.chmod(res, 0o666)
             os.chmod(w, 0o777)
-        rep = X.run(sx, w, [h_one, ini, res, str(uid), str(ncalls), os.path.join(w, 'devlog')] + ([str(msglen)] if msglen else []), env=dict(H.san_env(w), VERIF_STD_STATE=std_state or '', **({'VERIF_STDIN_PTY': '1'} if stdin_pty else {})), opts=list(opts) + ['--skipalloc', '--calltimeout', str(calltimeout), '--totaltimeout', str(totaltimeout)], timeout=totaltimeout / 1000 + 30)
+        rep = X.run(sx, w, [h_one, ini, res, str(uid), str(ncalls), os.path.join(w, 'devlog')] + ([str(msglen)] if msglen else []), env=dict(H.san_env(w), VERIF_STD_STATE=std_state or '', **({'VERIF_STDIN_PTY': '1'} if stdin_pty else {}), **({'VERIF_RLIMIT_FSIZE': str(fsize)} if fsize is not None else {})), opts=list(opts) + ['--skipalloc', '--calltimeout', str(calltimeout), '--totaltimeout', str(totaltimeout)], timeout=totaltimeout / 1000 + 30)
         try:
             rep['result'] = json.load(open(res))
         except Exception:
@@ -333,14 +333,20 @@ def run(ck):
         states.append(('%s:pipe_unread_with_one_page_of_room:record_3000' % oname, big % oname, 0, None, 'nearly:' + fdn, 3000))
         states.append(('%s:pipe_unread_with_one_page_of_room:record_10000' % oname, big % oname, 0, None, 'nearly:' + fdn, 10000))
         states.append(('%s:pipe_read_normally:record_10000' % oname, big % oname, 0, None, None, 10000))
-    states = [s + (None,) * (6 - len(s)) for s in states]
-    st_res = pmap(lambda s: one_run(sx, v['h_one'], wdir(), s[1], [], uid=s[2], prep=s[3], std_state=s[4], msglen=s[5]), states)
+    # the caller's RLIMIT_FSIZE (ulimit -f) reached by the log file: an append beyond it raises SIGXFSZ in the writer
+    states.append(('file:log_at_the_callers_file_size_limit', fcfg, 0, lambda env: open(os.path.join(env.w, 'log'), 'wb').write(b'x' * 4096), None, None, 4096))
+    states.append(('file:record_crosses_the_callers_file_size_limit', fcfg, 0, lambda env: open(os.path.join(env.w, 'log'), 'wb').write(b'x' * 4090), None, None, 4096))
+    states.append(('file:callers_file_size_limit_is_zero', fcfg, 0, None, None, None, 0))
+    for oname, fdn in (('stdout', '1'), ('stderr', '2')):
+        states.append(('%s:regular_file_at_the_callers_file_size_limit' % oname, cfg[oname + '/default'], 0, None, 'file4096:' + fdn, None, 4096))
+    states = [s + (None,) * (7 - len(s)) for s in states]
+    st_res = pmap(lambda s: one_run(sx, v['h_one'], wdir(), s[1], [], uid=s[2], prep=s[3], std_state=s[4], msglen=s[5], fsize=s[6]), states)
     for s, rep in zip(states, st_res):
         evals += 1
         b = verdict(rep)
         outcomes.add(('state', s[0], tuple(b)))
         if b and ('hang_or_spin' in b or any(x.startswith('blocked') for x in b)):
-            rep = one_run(sx, v['h_one'], wdir(), s[1], [], uid=s[2], prep=s[3], calltimeout=12000, totaltimeout=30000, std_state=s[4], msglen=s[5])
+            rep = one_run(sx, v['h_one'], wdir(), s[1], [], uid=s[2], prep=s[3], calltimeout=12000, totaltimeout=30000, std_state=s[4], msglen=s[5], fsize=s[6])
             b = verdict(rep)
         if b:
             ck.violation('C03:%s:sink_state=%s' % ('+'.join(b), s[0]), {'state': s[0], 'config': s[1], 'uid': s[2], 'report': {k: rep.get(k) for k in ('signals', 'exit_code', 'term_sig', 'blocked_call', 'total_timeout', 'result')},
